@@ -26,6 +26,12 @@ theorem rc_good (cfg : RC.Cfg) (acts : List RC.Act) : RC.Good ((rcSys cfg).run a
 theorem rc_one_in_flight (cfg : RC.Cfg) (acts : List RC.Act) : ((rcSys cfg).run acts).execs.Nodup :=
   (rc_good cfg acts).execsNodup
 
+/-- the Refresher (lib/blobrefresh) starts its downloads through one RequestCache with `id := digest`
+(whatever the namespace; tied by the `br` harness): at most one download per blob is in flight -/
+theorem refresher_one_download_per_blob (cfg : RC.Cfg) (acts : List RC.Act) (digest : Nat) :
+    ((rcSys cfg).run acts).execs.count digest ≤ 1 :=
+  List.nodup_iff_count.mp (rc_one_in_flight cfg acts) digest
+
 /-- a key is pending exactly while an execution of it is in flight or a `Start` that reserved it has
 not yet got a worker / given up -/
 theorem rc_pending_is_owned (cfg : RC.Cfg) (acts : List RC.Act) (id : Nat) :
@@ -38,8 +44,9 @@ theorem rc_pending_is_owned (cfg : RC.Cfg) (acts : List RC.Act) (id : Nat) :
     · exact G.execPending id h
     · exact (G.thrPending t id h).1
 
-/-- **C29 (2)** While a key is pending, a further `Start` reports `ErrRequestPending`, runs nothing
-and changes neither the pending set nor the executions (in every state). -/
+/-- **C29 (2)** step form (any state): while a key is pending, a further `Start` reports
+`ErrRequestPending`, runs nothing and changes neither the pending set nor the executions. The history
+form, which says when a key *is* pending, is `rc_in_flight_reported_pending`. -/
 theorem rc_pending_reported (s : RC.State) (t id : Nat) (hp : id ∈ s.pending) :
     RC.reserveOut s id = .pending ∧
     (RC.step s (.reserve t id)).pending = s.pending ∧ (RC.step s (.reserve t id)).execs = s.execs ∧
@@ -51,8 +58,9 @@ theorem rc_pending_reported (s : RC.State) (t id : Nat) (hp : id ∈ s.pending) 
   · simp only [ho]; exact ⟨by trivial, by trivial, by trivial⟩
   · exact ⟨rfl, rfl, rfl⟩
 
-/-- **C29 (3)** While the error of the last execution is cached and not expired (`now ≤ expiresAt`),
-a `Start` for an idle key reports that error and runs nothing. -/
+/-- **C29 (3)** step form (any state, about whatever the error map holds): an unexpired entry of the
+error map (`now ≤ expiresAt`) for an idle key is reported and nothing runs. That the map holds the error
+of the last execution is `rc_last_error_served`. -/
 theorem rc_cached_error_reported (s : RC.State) (t id e exp : Nat) (hp : id ∉ s.pending)
     (he : alook s.errors id = some (e, exp)) (hfresh : s.now ≤ exp) :
     RC.reserveOut s id = .cached e ∧
@@ -70,6 +78,28 @@ theorem rc_cached_error_reported (s : RC.State) (t id e exp : Nat) (hp : id ∉ 
   split
   · simp only [ho]; exact ⟨by trivial, by trivial, by trivial⟩
   · exact ⟨rfl, rfl, rfl⟩
+
+/-- **C29 (3')** history form: after every history, while the error of the *last execution* of a key
+(ghost `lastErr`, set when that execution failed, cleared when a later one succeeded) is not expired
+and the key is idle, a `Start` reports exactly that error and runs nothing — the periodic cleanup and
+other keys' errors never hide it. -/
+theorem rc_last_error_served (cfg : RC.Cfg) (acts : List RC.Act) (t id e exp : Nat)
+    (hl : alook ((rcSys cfg).run acts).lastErr id = some (e, exp))
+    (hfresh : ((rcSys cfg).run acts).now ≤ exp) (hp : id ∉ ((rcSys cfg).run acts).pending) :
+    RC.reserveOut ((rcSys cfg).run acts) id = .cached e ∧
+    (RC.step ((rcSys cfg).run acts) (.reserve t id)).execs = ((rcSys cfg).run acts).execs := by
+  have ha : RC.ErrAgree ((rcSys cfg).run acts) :=
+    Sys.run_inv (rcSys cfg) RC.ErrAgree (RC.errAgree_init cfg) (fun s a h => RC.step_errAgree s a h) acts
+  have := rc_cached_error_reported ((rcSys cfg).run acts) t id e exp hp (ha id e exp hl hfresh) hfresh
+  exact ⟨this.1, this.2.2.1⟩
+
+/-- history form of (2): after every history a key with an execution in flight, or reserved by a
+`Start` that has no worker yet, is reported pending -/
+theorem rc_in_flight_reported_pending (cfg : RC.Cfg) (acts : List RC.Act) (id : Nat)
+    (h : id ∈ ((rcSys cfg).run acts).execs ∨ ∃ t, RC.Holds ((rcSys cfg).run acts) t id) :
+    RC.reserveOut ((rcSys cfg).run acts) id = .pending := by
+  have hp := (rc_pending_is_owned cfg acts id).mpr h
+  simp [RC.reserveOut, hp]
 
 /-- **C29 (4)** A `Start` that finds no free worker leaves nothing pending: after its `release`, the
 key is not pending (after every history), and no execution was started for it. -/
@@ -138,8 +168,9 @@ theorem limiter_exclusive (acts : List Lim.Act) (t1 t2 k tk1 tk2 : Nat)
   cases i2
   exact G.execUnique t1 t2 k k tk1 h1 h2
 
-/-- **C29 (7)** While a run is in flight or its output is cached and not expired, a further caller
-does not run the task again: it waits for the run, respectively gets the cached output. -/
+/-- **C29 (7)** step form, per task object (any state): while a run is in flight or its output is cached
+and not expired, a caller entering on that object does not run the task again. The key-level history
+form is `limiter_no_rerun_unexpired`; exclusion of concurrent runs per key is `limiter_exclusive`. -/
 theorem limiter_enter_no_rerun (s : Lim.State) (task : Lim.Task) (hd : task.deleted = false) :
     (task.running = true → Lim.enterOut s task ≠ .run) ∧
     (Lim.expired s.now task = false → Lim.enterOut s task = .cached task.output) := by
@@ -150,6 +181,49 @@ theorem limiter_enter_no_rerun (s : Lim.State) (task : Lim.Task) (hd : task.dele
     by_cases he : Lim.expired s.now task = true <;> simp [he]
   · intro he
     simp [Lim.enterOut, hd, he]
+
+/-- **C29 (7')** history and key level: after every history, if *any* task object of key `k` holds an
+unexpired output, a caller of `k` that enters `getOutput` — whichever task object it holds — does
+not start the runner (it gets the cached output, or retries because its object was collected). -/
+theorem limiter_no_rerun_unexpired (acts : List Lim.Act) (t k tk : Nat)
+    (ht : Lim.tget ((limSys true).run acts) t = .hold k tk)
+    (hu : ∃ (i : Nat) (task : Lim.Task), ((limSys true).run acts).heap[i]? = some task ∧ task.key = k ∧
+      Lim.expired ((limSys true).run acts).now task = false) :
+    ∀ k' tk', Lim.tget (Lim.step ((limSys true).run acts) (.enter t)) t ≠ .exec k' tk' := by
+  have G := lim_good acts
+  have D : Lim.DelExpired ((limSys true).run acts) := by
+    have : Lim.Good ((limSys true).run acts) ∧ Lim.DelExpired ((limSys true).run acts) :=
+      Sys.run_inv (limSys true) (fun s => Lim.Good s ∧ Lim.DelExpired s) ⟨Lim.good_init, Lim.delExpired_init⟩
+        (fun s a h => ⟨Lim.step_good s a h.1, Lim.step_delExpired s a h.1 h.2⟩) acts
+    exact this.2
+  generalize (limSys true).run acts = s at *
+  obtain ⟨i, live, hi, hk, hne⟩ := hu
+  -- the unexpired task is not deleted, hence the live task of k
+  have hlive : live.deleted = false := by
+    cases hd : live.deleted with
+    | false => rfl
+    | true => rw [(D i live hi hd).1] at hne; cases hne
+  have hidx := G.idxComplete i live hi hlive
+  obtain ⟨mine, hm, hmk⟩ := G.refs t k tk (Or.inl ht)
+  intro k' tk' hex
+  simp only [Lim.step, ht, hm] at hex
+  by_cases hsame : tk = i
+  · subst hsame
+    rw [hi] at hm; cases hm
+    have : Lim.enterOut s live = .cached live.output := by simp [Lim.enterOut, hlive, hne]
+    simp only [this] at hex
+    rw [Lim.tget_tset] at hex; simp at hex
+  · -- a different object of the same key: it is deleted, the caller retries
+    have hdel : mine.deleted = true := by
+      cases hd : mine.deleted with
+      | true => rfl
+      | false =>
+        have := G.idxComplete tk mine hm hd
+        rw [hmk, ← hk, hidx] at this
+        cases this; exact absurd rfl hsame
+    have : Lim.enterOut s mine = .retry := by simp [Lim.enterOut, G.retryOn, hdel]
+    simp only [this] at hex
+    rw [Lim.tget_tset] at hex; simp at hex
 
 /-- a garbage-collected task is never used again by a caller that still holds it -/
 theorem limiter_collected_task_retried (s : Lim.State) (task : Lim.Task) (hr : s.retry = true)
